@@ -100,7 +100,180 @@ def decisions(cond):
                 for b, ob in decisions(cond['c'][1]):
                     out.append((a + b, ob))
         return out
+    if k == 'ConditionalOperator' and len(cond.get('c') or ()) == 3 and (cond.get('t') or '').replace('const ', '') == 'bool':
+        # `c ? a : b` as a condition is `c && a || !c && b`, evaluated in that order
+        out = []
+        for a, oa in decisions(cond['c'][0]):
+            for b, ob in decisions(cond['c'][1] if oa else cond['c'][2]):
+                out.append((a + b, ob))
+        return out
     return [(((cond, True),), True), (((cond, False),), False)]
+
+
+# ---------------------------------------------------------------------------
+# tests of one value against constants: `switch (e) case X`, `if (e == X) .. else if (e == Y)`, `if (e != X) return;` are one thing
+
+ENUMERATORS = {}        # canonical constant -> tuple of the canonical constants of its domain (unambiguous names only)
+# smt/defs.h: `typedef unsigned short lbool` with the three constexpr values below; every lbool in the code base is one of them (the switches over
+# value(..) have no default arm)
+LBOOL = ('smt::False', 'smt::True', 'smt::Undefined')
+for _k in LBOOL:
+    ENUMERATORS[_k] = LBOOL
+LABEL_CANON = {k.rsplit('::', 1)[-1]: k for k in LBOOL}     # case label name -> canonical constant
+
+
+def register_enums(enums):
+    seen = {}
+    for e in (enums or {}).values():
+        names = tuple(x['name'].rsplit('::', 1)[-1] for x in e.get('enumerators') or ())
+        for n in names:
+            seen.setdefault(n, set()).add(names)
+    for n, ds in seen.items():
+        if len(ds) == 1:
+            ENUMERATORS[n] = next(iter(ds))
+
+
+def const_term(t):
+    """is the canonical term a constant a value can be compared with (enumerator name / number / character)?"""
+    if isinstance(t, tuple) and len(t) == 2 and t[0] == 'num':
+        return True
+    return isinstance(t, str) and t in ENUMERATORS
+
+
+def eq_test(t):
+    """(e, K) when the canonical term is `e == K` with K a constant and e not one."""
+    if isinstance(t, tuple) and len(t) == 3 and t[0] == '==':
+        a, b = t[1], t[2]
+        if const_term(b) and not const_term(a):
+            return a, b
+        if const_term(a) and not const_term(b):
+            return b, a
+    return None
+
+
+def label_term(l):
+    """canonical constant of a case label (value, name)."""
+    val, name = l
+    if name is None:
+        return ('num', val)
+    return LABEL_CANON.get(name, name)
+
+
+def eq_term(e, k):
+    a, b = sorted((e, k), key=repr)
+    return ('==', a, b)
+
+
+def value_literals(conds):
+    """conds: [('if', term, pol) | ('switch', term, labels)] with canonical terms (polarity-normalised: no leading `!`, no `!=`).  Returns the same path
+    condition with every test of a value against constants spelled as literals `(== e K)`: a switch arm with one label is the positive literal, the
+    default arm / no-match exit the negative literals of all the cases; a positive literal makes the negative ones on the same value redundant; negative
+    literals that leave one enumerator only are that positive literal.  None when the path cannot be taken (every enumerator excluded)."""
+    out = []
+    for c in conds:
+        if c[0] == 'switch':
+            labs = c[2]
+            if len(labs) == 1 and labs[0][0] == 'case':
+                out.append(('if', eq_term(c[1], label_term(labs[0][1:3])), True))
+                continue
+            if labs and all(l[0] in ('default', 'nomatch') for l in labs) and len(labs[0]) > 3:
+                for l in labs[0][3]:
+                    out.append(('if', eq_term(c[1], label_term(l)), False))
+                continue
+        out.append(c)
+    pos, neg = {}, {}
+    for c in out:
+        if c[0] == 'if':
+            ek = eq_test(c[1])
+            if ek is not None:
+                (pos if c[2] else neg).setdefault(ek[0], []).append(ek[1])
+    for e, ks in neg.items():
+        if e in pos:
+            continue
+        dom = None
+        for k in ks:
+            if isinstance(k, str) and k in ENUMERATORS:
+                dom = ENUMERATORS[k]
+        if dom is not None and all(isinstance(k, str) and k in dom for k in ks):
+            rem = [x for x in dom if x not in ks]
+            if not rem:
+                return None
+            if len(rem) == 1:
+                pos[e] = [rem[0]]
+                # the positive literal takes the place of the first negative one
+                first = True
+                o2 = []
+                for c in out:
+                    ek = eq_test(c[1]) if c[0] == 'if' else None
+                    if ek is not None and ek[0] == e and not c[2]:
+                        if first:
+                            o2.append(('if', eq_term(e, rem[0]), True))
+                            first = False
+                        continue
+                    o2.append(c)
+                out = o2
+    res = []
+    seen = set()
+    for c in out:
+        if c[0] == 'if':
+            ek = eq_test(c[1])
+            if ek is not None:
+                e, k = ek
+                if not c[2] and e in pos and len(set(map(repr, pos[e]))) == 1 and repr(pos[e][0]) != repr(k):
+                    continue        # implied by the positive literal on the same value
+                if (repr(c[1]), c[2]) in seen:
+                    continue
+                seen.add((repr(c[1]), c[2]))
+        res.append(c)
+    return res
+
+
+def norm_literal(t, pol):
+    """one spelling per atomic decision: no leading negation, `!=` as a failed `==`, `<=` as a failed `>`."""
+    while isinstance(t, tuple) and len(t) == 2 and t[0] == '!':
+        t, pol = t[1], not pol
+    if isinstance(t, tuple) and len(t) == 3 and t[0] == '!=':
+        t, pol = ('==',) + t[1:], not pol
+    if isinstance(t, tuple) and len(t) == 3 and t[0] == '<=':
+        t, pol = ('<', t[2], t[1]), not pol
+    return t, pol
+
+
+def path_literals(conds, term):
+    """the conditions of a path (as enum_paths gives them) as value literals over canonical terms; term(node) -> canonical term.  None: not a path."""
+    cs = []
+    for c in conds:
+        if c[0] == 'if':
+            t, pol = norm_literal(term(c[1]), c[2])
+            cs.append(('if', t, pol))
+        else:
+            cs.append(('switch', term(c[1]), tuple((l[0], l[1], l[2]) + tuple(l[3:]) for l in c[2])))
+    return value_literals(cs)
+
+
+def value_of(lits, e):
+    """the constant that the path literals give to the value e (short name for enumerators / lbool, number for integers), else None."""
+    for c in lits or ():
+        if c[0] == 'if' and c[2]:
+            ek = eq_test(c[1])
+            if ek is not None and ek[0] == e:
+                k = ek[1]
+                return k[1] if isinstance(k, tuple) else k.rsplit('::', 1)[-1]
+        if c[0] == 'switch' and c[1] == e:
+            return None
+    return None
+
+
+def excluded_of(lits, e):
+    """the constants the path literals exclude for the value e."""
+    out = []
+    for c in lits or ():
+        if c[0] == 'if' and not c[2]:
+            ek = eq_test(c[1])
+            if ek is not None and ek[0] == e:
+                k = ek[1]
+                out.append(k[1] if isinstance(k, tuple) else k.rsplit('::', 1)[-1])
+    return out
 
 
 def enum_paths(stmt, limit=4000):
@@ -171,15 +344,17 @@ def enum_paths(stmt, limit=4000):
             arms = switch_arms(s)
             cond = s['slots'].get('cond')
             has_default = any(l[0] == 'default' for ls, _ in arms for l in ls)
+            allcases = tuple((l[1], l[2]) for ls, _ in arms for l in ls if l[0] == 'case')
             out = []
             for i, (labels, _) in enumerate(arms):
                 if not labels:
                     continue
+                labels = [l if l[0] == 'case' else (l[0], None, None, allcases) for l in labels]
                 for q in seq([st for _, st in arms[i:]]):
                     end = 'fall' if q.end == 'break' else q.end
                     out.append(Path((('switch', cond, tuple(labels)),) + q.conds, q.stmts, end, q.endnode))
             if not has_default:
-                out.append(Path((('switch', cond, (('nomatch', None, None),)),), (), 'fall', None))
+                out.append(Path((('switch', cond, (('nomatch', None, None, allcases),)),), (), 'fall', None))
             return out
         if kind in ('AttributedStmt', 'LabelStmt'):
             c = s.get('c') or []
